@@ -634,15 +634,114 @@ func c04RunIso(ctx *Ctx, c c04IsoCase) {
 	ctx.Eval(fmt.Sprint(c.Steps), hasRegThenPlain, "stage:compile-isolation")
 }
 
+// --- (e) results handed out earlier stay what they were ---------------------------------
+
+// One compiled expression is evaluated on resource A, then on resource B (same type), then
+// on A again.  The collection returned for A first must still hold A's elements afterwards
+// (a compiled expression keeps no buffer that later evaluations overwrite), and the second
+// evaluation on A must return the same elements.
+type c04KeepCase struct {
+	A, B string `json:"-"`
+	TA   string `json:"a"`
+	TB   string `json:"b"`
+	Path string `json:"path"`
+}
+
+func c04GenKeep(s Src) c04KeepCase {
+	typ := allResTypes[s.Intn(len(allResTypes))].Name
+	if s.Prob(30) {
+		typ = "Patient"
+	}
+	a := genResource(s, typ, defaultGen)
+	bo := defaultGen
+	if s.Prob(30) {
+		bo = smallGen
+	}
+	b := genResource(s, typ, bo)
+	c := c04KeepCase{TA: resToText(a), TB: resToText(b), Path: typ}
+	if root, _, err := buildTree(a); err == nil {
+		var paths []string
+		root.walk(func(n *Node) {
+			if pn := n.pathNames(); len(pn) > 0 && len(pn) <= 4 {
+				paths = append(paths, typ+"."+strings.Join(pn, "."))
+			}
+		})
+		if len(paths) > 0 {
+			c.Path = pickOne(s, paths) + pickOne(s, []string{"", "", "", ".where(true)", ".tail()", ".select($this)", ".take(5)", ".children()"})
+		}
+	}
+	return c
+}
+
+func c04RunKeep(ctx *Ctx, c c04KeepCase) {
+	ra, e1 := resFromText(c.TA)
+	rb, e2 := resFromText(c.TB)
+	if e1 != nil || e2 != nil {
+		ctx.Fail("harness: cannot decode case", fmt.Sprint(e1, e2))
+		return
+	}
+	if strings.Contains(c.Path, ".div") {
+		return
+	}
+	e, err := fhirpath.Compile(c.Path)
+	if err != nil {
+		ctx.Eval(c.TA+c.Path, false, "stage:retained-results", "outcome:compile-error")
+		return
+	}
+	var first, second, third system.Collection
+	var err1, err2, err3 error
+	g := guard(func() {
+		first, err1 = e.Evaluate([]fhir.Resource{ra.(fhir.Resource)})
+	})
+	if g.Panic != "" || err1 != nil {
+		ctx.Eval(c.TA+c.Path, false, "stage:retained-results", "outcome:error")
+		return
+	}
+	ids := make([]string, len(first))
+	for i, x := range first {
+		ids[i] = itemID(x) + "|" + renderItem(x)
+	}
+	g = guard(func() {
+		second, err2 = e.Evaluate([]fhir.Resource{rb.(fhir.Resource)})
+		third, err3 = e.Evaluate([]fhir.Resource{ra.(fhir.Resource)})
+	})
+	ctx.Eval(c.TA+c.TB+c.Path, len(first) > 0 && len(second) > 0, "stage:retained-results", fmt.Sprintf("first-nonempty:%v", len(first) > 0), fmt.Sprintf("second-nonempty:%v", len(second) > 0))
+	if g.Panic != "" {
+		return // C01
+	}
+	_ = err2
+	if len(first) != len(ids) {
+		ctx.Fail("retained result: the collection returned by an earlier evaluation changed its length", c.Path)
+		return
+	}
+	for i, x := range first {
+		if got := itemID(x) + "|" + renderItem(x); got != ids[i] {
+			ctx.Fail("retained result: the collection returned by an earlier evaluation was overwritten by a later evaluation of the same compiled expression", fmt.Sprintf("%s: item %d was %s, now %s", c.Path, i, clip(ids[i], 120), clip(got, 120)))
+			return
+		}
+	}
+	if err3 != nil || len(third) != len(ids) {
+		ctx.Fail("retained result: evaluating again on the first resource gives another result", fmt.Sprintf("%s: %d items then %d (err %v)", c.Path, len(ids), len(third), err3))
+		return
+	}
+	for i, x := range third {
+		if renderItem(x) != renderItem(first[i]) {
+			ctx.Fail("retained result: evaluating again on the first resource gives another result", fmt.Sprintf("%s: item %d", c.Path, i))
+			return
+		}
+	}
+}
+
 var _ = proto.Equal
 
 func TestC04(t *testing.T) {
 	r := newRec("C04",
-		"(concurrent) a history is 1..6 compiled expressions (a pool of read-heavy programs using where/select/exists/all/iif/now()/variables/a custom function, plus generated programs), the fixture Patient + 0..2 generated resources shared by all goroutines, 2..16 goroutines each with 1..20 (expression, resource subset, option set) evaluations (60% of them the same expression on the same resource), a drawn start order behind a barrier, GOMAXPROCS ∈ {1,2,4,16} and 0..3 goroutines calling Compile/patch.Compile with AddFunction/WithExperimentalFuncs meanwhile; run in a -race binary; oracle: race detector silent, every concurrent result (rendering and element pointers) equals the same evaluation performed alone beforehand, shared resources unchanged.  (time) instants around epoch/leap day/DST changes/year 9999 in 13 zones: now()/today()/timeOfDay() under OverrideTime, one instant per evaluation spanning ≥ 6 ms with and without override, repeatability.  (tz-matrix) a fixed battery without OverrideTime in child processes with TZ ∈ {UTC, Asia/Kolkata, America/St_Johns, Pacific/Chatham} must render identically.  (compile-isolation) generated histories of 1..10 Compile calls over {fresh/duplicate/built-in/variadic/non-function AddFunction, WithExperimentalFuncs, AddFunction combined with WithExperimentalFuncs in either order, Permissive, patch.Compile, plain} with the invariant after every step: base table snapshot unchanged, no registered name resolves elsewhere, join only with the experimental option, built-in battery unchanged.  non-trivial = ≥ 2 evaluations of one (expression, resources, options) triple in different goroutines; a history with a registration followed by a plain Compile; distinct = FNV-64 of the history",
+		"(concurrent) a history is 1..6 compiled expressions (a pool of read-heavy programs using where/select/exists/all/iif/now()/variables/a custom function, plus generated programs), the fixture Patient + 0..2 generated resources shared by all goroutines, 2..16 goroutines each with 1..20 (expression, resource subset, option set) evaluations (60% of them the same expression on the same resource), a drawn start order behind a barrier, GOMAXPROCS ∈ {1,2,4,16} and 0..3 goroutines calling Compile/patch.Compile with AddFunction/WithExperimentalFuncs meanwhile; run in a -race binary; oracle: race detector silent, every concurrent result (rendering and element pointers) equals the same evaluation performed alone beforehand, shared resources unchanged.  (time) instants around epoch/leap day/DST changes/year 9999 in 13 zones: now()/today()/timeOfDay() under OverrideTime, one instant per evaluation spanning ≥ 6 ms with and without override, repeatability.  (tz-matrix) a fixed battery without OverrideTime in child processes with TZ ∈ {UTC, Asia/Kolkata, America/St_Johns, Pacific/Chatham} must render identically.  (compile-isolation) generated histories of 1..10 Compile calls over {fresh/duplicate/built-in/variadic/non-function AddFunction, WithExperimentalFuncs, AddFunction combined with WithExperimentalFuncs in either order, Permissive, patch.Compile, plain} with the invariant after every step: base table snapshot unchanged, no registered name resolves elsewhere, join only with the experimental option, built-in battery unchanged.  (retained-results) one compiled path (a path of a generated resource A, optionally followed by where/tail/select/take/children) evaluated on A, then on a second resource B of the same type, then on A again: the collection returned first still holds A's elements and the third result equals the first.  non-trivial = ≥ 2 evaluations of one (expression, resources, options) triple in different goroutines; a history with a registration followed by a plain Compile; distinct = FNV-64 of the history",
 		"the Go scheduler is not controlled: only interleavings that occur are judged; the race detector flags conflicting unsynchronised accesses that occur in a run even if they did not overlap in time")
 	runProperty(t, r,
 		Stage[c04TZCase]{Name: "tz-matrix", Enum: c04EnumTZ, Run: c04RunTZ},
 		Stage[c04IsoCase]{Name: "compile-isolation", Gen: c04GenIso, Run: c04RunIso, N: pick(150, 3000)},
+		Stage[c04KeepCase]{Name: "retained-results", Gen: c04GenKeep, Run: c04RunKeep, N: pick(400, 8000)},
 		Stage[c04TimeCase]{Name: "time", Gen: c04GenTime, Run: c04RunTime, N: pick(60, 1500)},
 		Stage[c04ConcCase]{Name: "concurrent", Gen: c04GenConc, Run: c04RunConc, N: pick(80, 2500)},
 	)
